@@ -25,7 +25,7 @@ ASSUMPTIONS = [
     "noise directives are not .byte lines (a .byte after a decoy mov would form a real marker)",
     "bodies come from the shipped kernels so that every instruction is known to the model used",
 ]
-MIN_NONTRIVIAL = {"quick": 120, "thorough": 480}
+MIN_NONTRIVIAL = {"quick": 90, "thorough": 480}
 
 DECOYS = {
     "x86": ["movl $111, %ecx", "movl $112, %ebx", "movl $111, %ebx", "movl $222, %ebx", "movq $111, %rbx",
